@@ -181,6 +181,12 @@ fn gen_loop_case(rng: &mut Rng, tier: Tier, out: &mut Vec<String>) {
             },
             _ => {
                 out.push("age".to_string());
+                // the time is reset by the next trigger / follow-up publish: then no tick may follow
+                if connected && rng.chance(1, 3) {
+                    out.push("trigger".to_string());
+                    inflight.push(next_id);
+                    next_id += 1;
+                }
                 // a tick may publish after the next item of the stream: one more id may be in flight
                 if (inflight.len() as u64) < max_publish + 1 {
                     // not known for sure; the next ops probe next_id as well as the known ones
